@@ -497,17 +497,32 @@ Proof.
   all: clear Hle Hx Hb; Z.div_mod_to_equations; lia.
 Qed.
 
+(* the lists are lists of bytes, and the little-endian list is the big-endian one reversed (for any x) *)
+Definition byte (x : Z) : Prop := 0 <= x < 256.
+Lemma raw_bytes_shape w x : bytes_wf w = true ->
+  Forall byte (raw_to_be_bytes w x) /\ raw_to_le_bytes w x = rev (raw_to_be_bytes w x).
+Proof.
+  unfold bytes_wf. intros H.
+  repeat (apply orb_prop in H; destruct H as [H | H]);
+    apply shape_is_eq in H; destruct H as (Hs & Hn & Hbl & Hbh & Hll & Hlh & Hb);
+    unfold raw_to_be_bytes, raw_to_le_bytes; rewrite ?Hs, ?Hn, ?Hbl, ?Hbh, ?Hll, ?Hlh;
+    bytes_compute; (split; [|reflexivity]);
+    repeat (apply Forall_cons; [apply Z.mod_pos_bound; reflexivity|]); apply Forall_nil.
+Qed.
+
 Lemma bytes_agree_wf t : row_wf t = true -> bytes_wf (c_raw t) = true -> forall c, valid t c ->
   be_value (to_be_bytes t c) = into_storage t c /\
   le_value (to_le_bytes t c) = into_storage t c /\
   into_storage t c = to_raw t c /\
   Z.of_nat (length (to_be_bytes t c)) = raw_nbytes (c_raw t) /\
   Z.of_nat (length (to_le_bytes t c)) = raw_nbytes (c_raw t) /\
-  8 * (raw_nbytes (c_raw t) - 1) < bpp t <= 8 * raw_nbytes (c_raw t).
+  8 * (raw_nbytes (c_raw t) - 1) < bpp t <= 8 * raw_nbytes (c_raw t) /\
+  Forall byte (to_be_bytes t c) /\ to_le_bytes t c = rev (to_be_bytes t c).
 Proof.
   intros H Hb c Hv. unfold to_be_bytes, to_le_bytes, into_storage.
   destruct (raw_fits_wf t H c Hv) as [Hf _].
-  pose proof (raw_bytes_agree (c_raw t) (to_raw t c) Hb Hf). unfold bpp. tauto.
+  pose proof (raw_bytes_agree (c_raw t) (to_raw t c) Hb Hf).
+  pose proof (raw_bytes_shape (c_raw t) (to_raw t c) Hb). unfold bpp. tauto.
 Qed.
 
 (* ================================================================= 8. C12 over the regenerated table *)
@@ -523,6 +538,14 @@ Proof. intros t Ht. apply raw_fits_wf, in_table_wf, Ht. Qed.
 
 Lemma c12_from_raw_valid : forall t, In t color_table -> forall v, valid t (from_raw t (raw_new t v)).
 Proof. intros t Ht. apply from_raw_valid_wf, in_table_wf, Ht. Qed.
+
+(* #[derive(Default)] / BinaryColor::default(): the all-zero value is a colour of every type, and it is BLACK / Off *)
+Lemma c12_default_valid : forall t, In t color_table -> valid t 0 /\ color_black t = 0.
+Proof.
+  intros t Ht. pose proof (used_le_bpp t (in_table_wf t Ht)). split.
+  - unfold valid. pose proof (pow2_pos (used_bits t)). lia.
+  - clear H. revert t Ht. apply Forall_forall. vm_compute. repeat constructor.
+Qed.
 
 Lemma c12_raw_idem : forall t, In t color_table -> forall v,
   let d := to_raw t (from_raw t (raw_new t v)) in
@@ -569,7 +592,8 @@ Lemma c12_bytes_agree : forall t, In t color_table -> forall c, valid t c ->
   into_storage t c = to_raw t c /\
   Z.of_nat (length (to_be_bytes t c)) = raw_nbytes (c_raw t) /\
   Z.of_nat (length (to_le_bytes t c)) = raw_nbytes (c_raw t) /\
-  8 * (raw_nbytes (c_raw t) - 1) < bpp t <= 8 * raw_nbytes (c_raw t).
+  8 * (raw_nbytes (c_raw t) - 1) < bpp t <= 8 * raw_nbytes (c_raw t) /\
+  Forall byte (to_be_bytes t c) /\ to_le_bytes t c = rev (to_be_bytes t c).
 Proof. intros t Ht. apply bytes_agree_wf; [apply in_table_wf, Ht | apply in_table_bytes_wf, Ht]. Qed.
 
 (* BinaryColor: Off <-> raw 0, On <-> raw 1, any non-zero raw is On *)
@@ -1541,3 +1565,192 @@ Lemma c13_web_basic_keywords :
      [67; 83; 83; 95; 65; 81; 85; 65]] =
   map Some [(0, 0, 0); (192, 192, 192); (128, 128, 128); (255, 255, 255); (128, 0, 0); (255, 0, 0); (128, 0, 128); (255, 0, 255); (0, 128, 0); (0, 255, 0); (128, 128, 0); (255, 255, 0); (0, 0, 128); (0, 0, 255); (0, 128, 128); (0, 255, 255)].
 Proof. vm_compute. reflexivity. Qed.
+
+(* ================================================================= 16. round 2: pinned constants, FBinAny, RGB -> Gray error *)
+(* the luma weights ARE the ITU-R BT.601 weights in 8 bit fixed point (0.299, 0.587, 0.114 to within 1/256):
+   without this, any non-negative weights summing to the divisor would satisfy every other theorem *)
+Lemma c13_luma_is_bt601 :
+  (luma_wr = 77 /\ luma_wg = 150 /\ luma_wb = 29 /\ luma_div = 256 /\ luma_round = 128) /\
+  (Z.abs (1000 * luma_wr - 299 * luma_div) <= 1000 /\ Z.abs (1000 * luma_wg - 587 * luma_div) <= 1000 /\
+   Z.abs (1000 * luma_wb - 114 * luma_div) <= 1000).
+Proof. vm_compute. intuition discriminate. Qed.
+
+(* every other literal the translator reads (the theorems above constrain them semantically; this pins the values) *)
+Lemma c13_constants_pinned :
+  cc_shift = 24 /\ cc_half_base = 1 /\ cc_half_sub = 1 /\ rgb_bin_threshold = 128 /\
+  gray_max_base = 255 /\ gray_max_bits = 8 /\ gray_50_base = 128 /\ gray_50_bits = 8 /\
+  gray_black_arg = 0 /\ gray_white_arg = 255 /\ bin_from_zero = 0 /\ bin_raw_off = 0 /\ bin_raw_on = 1 /\
+  c_name via_rgb = [82; 103; 98; 56; 56; 56] /\ c_name via_gray = [71; 114; 97; 121; 56] /\ c_name web_src = [82; 103; 98; 56; 56; 56].
+Proof. vm_compute. repeat split; reflexivity. Qed.
+
+(* BinaryColor -> X is monotone (Off = 0 <= On = 1 |-> black <= white in every channel) *)
+Definition bin_mono_check (p : family * crow * crow) : bool :=
+  let '(f, a, b) := p in
+  match f with
+  | FBinAny =>
+      let k := convert FBinAny a b bin_off in let w := convert FBinAny a b bin_on in
+      (used_bits a =? 1) &&
+      match c_kind b with
+      | KRgb _ _ _ _ => (get_r b k <=? get_r b w) && (get_g b k <=? get_g b w) && (get_b b k <=? get_b b w)
+      | _ => luma_of b k <=? luma_of b w
+      end
+  | _ => true
+  end.
+Lemma pairs_bin_mono : forallb bin_mono_check conv_pairs = true.
+Proof. vm_cast_no_check (eq_refl true). Qed.
+
+Lemma c13_binary_to_any_mono : forall a b, In (FBinAny, a, b) conv_pairs -> forall c1 c2, valid a c1 -> valid a c2 -> c1 <= c2 ->
+  (is_rgb b = true -> get_r b (convert FBinAny a b c1) <= get_r b (convert FBinAny a b c2) /\
+                      get_g b (convert FBinAny a b c1) <= get_g b (convert FBinAny a b c2) /\
+                      get_b b (convert FBinAny a b c1) <= get_b b (convert FBinAny a b c2)) /\
+  (is_gray b = true -> luma_of b (convert FBinAny a b c1) <= luma_of b (convert FBinAny a b c2)).
+Proof.
+  intros a b H c1 c2 V1 V2 L. pose proof (proj1 (forallb_forall _ conv_pairs) pairs_bin_mono _ H) as W.
+  unfold bin_mono_check in W. apply andb_prop in W. destruct W as [U W]. apply Z.eqb_eq in U.
+  unfold valid in V1, V2. rewrite U in V1, V2. unfold is_rgb, is_gray.
+  destruct (bin_cases c1 V1) as [-> | ->]; destruct (bin_cases c2 V2) as [-> | ->]; try lia;
+    fold bin_off bin_on; destruct (c_kind b); split; intros; try discriminate; lia.
+Qed.
+
+(* the seven families partition the 182 conversions *)
+Lemma c13_family_census :
+  map (fun f => length (filter (fun p => match fst (fst p), f with
+                                         | FRgbRgb, FRgbRgb | FGrayGray, FGrayGray | FGrayRgb, FGrayRgb | FRgbGray, FRgbGray
+                                         | FBinAny, FBinAny | FGrayBin, FGrayBin | FRgbBin, FRgbBin => true
+                                         | _, _ => false end) conv_pairs))
+      [FRgbRgb; FGrayGray; FGrayRgb; FRgbGray; FBinAny; FGrayBin; FRgbBin] = [90; 6; 30; 30; 13; 3; 10]%nat.
+Proof. vm_compute. reflexivity. Qed.
+
+(* --- RGB -> Gray: two roundings.  Second stage is nearest w.r.t. the 8 bit luma; end to end the result is within
+   1/2 + max_luma/255 target steps (1 step for Gray8, about 0.56 for Gray4, 0.51 for Gray2) of the exactly scaled
+   BT.601 luma  max_luma * (wr * r/max_r + wg * g/max_g + wb * b/max_b) / div;  "nearest" (1/2 step) is FALSE. *)
+Lemma c13_rgb_gray_second_stage_nearest : forall a b, In (FRgbGray, a, b) conv_pairs -> forall c, valid a c ->
+  2 * Z.abs (luma_of b (convert FRgbGray a b c) * 255 - luma_via a c * max_luma b) <= 255.
+Proof.
+  intros a b H c Hv. destruct (c13_rgb_gray_luma a b H c Hv) as (_ & -> & R).
+  destruct (rgb_gray_pair_facts a b H) as (_ & Gb & _ & Yb). destruct (good_row_facts b Gb) as (Wb & _).
+  destruct (gray_max b Wb Yb) as (? & ? & _).
+  assert (Hw8 : 1 <= 8 <= 8) by lia. assert (Ew8 : 255 = 2 ^ 8 - 1) by reflexivity.
+  apply (nearest_of_cc 8 (bpp b)); assumption.
+Qed.
+
+Lemma scale_bound k x y : 0 <= k -> - y <= x <= y -> - (k * y) <= k * x <= k * y.
+Proof. intros Hk [H1 H2]. split; [rewrite <- Z.mul_opp_r|]; apply Z.mul_le_mono_nonneg_l; lia. Qed.
+
+Lemma rgb_gray_arith wr wg wb dv rd mr mg mb r g b r8 g8 b8 L o ml :
+  0 <= wr -> 0 <= wg -> 0 <= wb -> wr + wg + wb = dv -> 2 * rd = dv -> 0 < mr -> 0 < mg -> 0 < mb -> 0 <= ml ->
+  2 * Z.abs (r8 * mr - r * 255) <= mr -> 2 * Z.abs (g8 * mg - g * 255) <= mg -> 2 * Z.abs (b8 * mb - b * 255) <= mb ->
+  dv * L <= wr * r8 + wg * g8 + wb * b8 + rd < dv * L + dv ->
+  2 * Z.abs (o * 255 - L * ml) <= 255 ->
+  let S := wr * r * mg * mb + wg * g * mr * mb + wb * b * mr * mg in
+  let D := dv * mr * mg * mb in
+  2 * 255 * Z.abs (o * D - ml * S) <= (2 * ml + 255) * D /\ (ml = 255 -> Z.abs (o * D - ml * S) <= D).
+Proof.
+  intros Hwr Hwg Hwb Hs Hrd Hmr Hmg Hmb Hml Nr Ng Nb Fl N2 S D.
+  assert (Ar : - mr <= 2 * (r8 * mr - r * 255) <= mr) by lia.
+  assert (Ag : - mg <= 2 * (g8 * mg - g * 255) <= mg) by lia.
+  assert (Ab : - mb <= 2 * (b8 * mb - b * 255) <= mb) by lia.
+  assert (C2 : - 255 <= 2 * (o * 255 - L * ml) <= 255) by lia.
+  clear Nr Ng Nb N2.
+  assert (0 <= mg * mb) by (apply Z.mul_nonneg_nonneg; lia). assert (0 <= mr * mb) by (apply Z.mul_nonneg_nonneg; lia).
+  assert (0 <= mr * mg) by (apply Z.mul_nonneg_nonneg; lia).
+  assert (HM : 0 <= mr * mg * mb) by (apply Z.mul_nonneg_nonneg; lia).
+  pose proof (scale_bound (wr * (mg * mb)) _ _ ltac:(apply Z.mul_nonneg_nonneg; lia) Ar) as E1.
+  pose proof (scale_bound (wg * (mr * mb)) _ _ ltac:(apply Z.mul_nonneg_nonneg; lia) Ag) as E2.
+  pose proof (scale_bound (wb * (mr * mg)) _ _ ltac:(apply Z.mul_nonneg_nonneg; lia) Ab) as E3.
+  (* rounding of the luma division *)
+  assert (B : - dv <= 2 * (dv * L - (wr * r8 + wg * g8 + wb * b8)) <= dv) by lia.
+  pose proof (scale_bound (mr * mg * mb) _ _ HM B) as E4.
+  (* X = L * D - 255 * S is within D *)
+  assert (X : - D <= L * D - 255 * S <= D) by (subst S D; lia).
+  assert (HD : 0 <= D) by (subst D; rewrite <- !Z.mul_assoc; apply Z.mul_nonneg_nonneg; lia).
+  pose proof (scale_bound ml _ _ Hml X) as E5.
+  pose proof (scale_bound D (2 * (o * 255 - L * ml)) 255 HD ltac:(lia)) as E6.
+  clear E1 E2 E3 E4 Ar Ag Ab B Fl.
+  assert (I : 255 * (o * D - ml * S) = ml * (L * D - 255 * S) + (o * 255 - L * ml) * D) by ring.
+  split.
+  - generalize dependent (o * D - ml * S). generalize dependent (L * D - 255 * S). intros X0 ? ? T I. lia.
+  - intros E. subst ml. assert (o = L) by lia. subst o. lia.
+Qed.
+
+Lemma frac_bounds wr wg wb dv mr mg mb r g b :
+  0 <= wr -> 0 <= wg -> 0 <= wb -> wr + wg + wb = dv -> 0 < dv -> 1 <= mr -> 1 <= mg -> 1 <= mb ->
+  0 <= r <= mr -> 0 <= g <= mg -> 0 <= b <= mb ->
+  0 < dv * mr * mg * mb /\
+  0 <= wr * r * mg * mb + wg * g * mr * mb + wb * b * mr * mg <= dv * mr * mg * mb.
+Proof.
+  intros Hwr Hwg Hwb Hs Hdv Hmr Hmg Hmb Hr Hg Hb. split; [repeat apply Z.mul_pos_pos; lia|].
+  assert (0 <= mg * mb) by (apply Z.mul_nonneg_nonneg; lia). assert (0 <= mr * mb) by (apply Z.mul_nonneg_nonneg; lia).
+  assert (0 <= mr * mg) by (apply Z.mul_nonneg_nonneg; lia).
+  assert (0 <= wr * r <= wr * mr) by (split; [apply Z.mul_nonneg_nonneg | apply Z.mul_le_mono_nonneg_l]; lia).
+  assert (0 <= wg * g <= wg * mg) by (split; [apply Z.mul_nonneg_nonneg | apply Z.mul_le_mono_nonneg_l]; lia).
+  assert (0 <= wb * b <= wb * mb) by (split; [apply Z.mul_nonneg_nonneg | apply Z.mul_le_mono_nonneg_l]; lia).
+  assert (T1 : 0 <= wr * r * (mg * mb) <= wr * mr * (mg * mb)) by (split; [apply Z.mul_nonneg_nonneg | apply Z.mul_le_mono_nonneg_r]; lia).
+  assert (T2 : 0 <= wg * g * (mr * mb) <= wg * mg * (mr * mb)) by (split; [apply Z.mul_nonneg_nonneg | apply Z.mul_le_mono_nonneg_r]; lia).
+  assert (T3 : 0 <= wb * b * (mr * mg) <= wb * mb * (mr * mg)) by (split; [apply Z.mul_nonneg_nonneg | apply Z.mul_le_mono_nonneg_r]; lia).
+  subst dv.
+  replace (wr * r * mg * mb) with (wr * r * (mg * mb)) by ring.
+  replace (wg * g * mr * mb) with (wg * g * (mr * mb)) by ring.
+  replace (wb * b * mr * mg) with (wb * b * (mr * mg)) by ring.
+  replace ((wr + wg + wb) * mr * mg * mb) with (wr * mr * (mg * mb) + wg * mg * (mr * mb) + wb * mb * (mr * mg)) by ring.
+  clear - T1 T2 T3.
+  generalize dependent (wr * r * (mg * mb)). generalize dependent (wg * g * (mr * mb)). generalize dependent (wb * b * (mr * mg)).
+  generalize (wr * mr * (mg * mb)) (wg * mg * (mr * mb)) (wb * mb * (mr * mg)). intros. lia.
+Qed.
+
+(* exactly scaled luma of a colour c of row a, as a fraction  luma_num / luma_den  of full scale *)
+Definition luma_num (a : crow) (c : Z) : Z :=
+  luma_wr * get_r a c * max_g a * max_b a + luma_wg * get_g a c * max_r a * max_b a + luma_wb * get_b a c * max_r a * max_g a.
+Definition luma_den (a : crow) : Z := luma_div * max_r a * max_g a * max_b a.
+
+Lemma c13_rgb_gray_error_bound_partial : forall a b, In (FRgbGray, a, b) conv_pairs -> forall c, valid a c ->
+  let o := luma_of b (convert FRgbGray a b c) in
+  0 < luma_den a /\ 0 <= luma_num a c <= luma_den a /\
+  2 * 255 * Z.abs (o * luma_den a - max_luma b * luma_num a c) <= (2 * max_luma b + 255) * luma_den a /\
+  (max_luma b = 255 -> Z.abs (o * luma_den a - max_luma b * luma_num a c) <= luma_den a).
+Proof.
+  intros a b H c Hv. cbv zeta.
+  destruct (c13_rgb_gray_luma a b H c Hv) as (_ & Eo & RL).
+  pose proof (c13_rgb_gray_second_stage_nearest a b H c Hv) as N2.
+  destruct (rgb_gray_pair_facts a b H) as (Ga & Gb & Ra & Yb).
+  destruct (good_row_facts a Ga) as (Wa & Pa & _). destruct (good_row_facts b Gb) as (Wb & _).
+  destruct (gray_max b Wb Yb) as (Hb & Eb & _).
+  destruct (rgb_max a Wa Pa Ra) as ((Hr & Er) & (Hg & Eg) & (Hbl & Ebl)).
+  destruct (rgb_chan_range a c Wa Ra Hv) as (Cr & Cg & Cb).
+  destruct (cc_to8 a c Wa Pa Ra Hv) as (B1 & B2 & B3).
+  assert (Hw8 : 1 <= 8 <= 8) by lia. assert (Ew8 : 255 = 2 ^ 8 - 1) by reflexivity.
+  pose proof (nearest_of_cc (rbits a) 8 (get_r a c) _ _ Hr Hw8 Er Ew8 Cr) as Nr.
+  pose proof (nearest_of_cc (gbits a) 8 (get_g a c) _ _ Hg Hw8 Eg Ew8 Cg) as Ng.
+  pose proof (nearest_of_cc (bbits a) 8 (get_b a c) _ _ Hbl Hw8 Ebl Ew8 Cb) as Nb.
+  destruct (lumaf_plain _ _ _ B1 B2 B3) as (EL & _ & _). fold (luma_via a c) in EL.
+  pose proof luma_consts as K. unfold luma_consts_ok in K.
+  assert (Pr : 1 <= max_r a) by (rewrite Er; apply pow2m1_ge1; lia).
+  assert (Pg : 1 <= max_g a) by (rewrite Eg; apply pow2m1_ge1; lia).
+  assert (Pb : 1 <= max_b a) by (rewrite Ebl; apply pow2m1_ge1; lia).
+  assert (Pl : 0 <= max_luma b) by (rewrite Eb; pose proof (pow2m1_ge1 (bpp b)); lia).
+  assert (Fl : luma_div * luma_via a c <=
+               luma_wr * convert_channel (max_r a) 255 (get_r a c) + luma_wg * convert_channel (max_g a) 255 (get_g a c) +
+               luma_wb * convert_channel (max_b a) 255 (get_b a c) + luma_round < luma_div * luma_via a c + luma_div).
+  { rewrite EL. set (W := _ + luma_round).
+    replace (luma_wr * convert_channel (max_r a) 255 (get_r a c) + luma_wg * convert_channel (max_g a) 255 (get_g a c) +
+             luma_wb * convert_channel (max_b a) 255 (get_b a c) + luma_round) with W by (subst W; ring).
+    pose proof (Z.mul_div_le W luma_div ltac:(lia)). pose proof (Z.mul_succ_div_gt W luma_div ltac:(lia)). lia. }
+  unfold luma_num, luma_den.
+  destruct (frac_bounds luma_wr luma_wg luma_wb luma_div (max_r a) (max_g a) (max_b a) (get_r a c) (get_g a c) (get_b a c))
+    as (D0 & F0); try assumption; try (clear - K; lia).
+  split; [exact D0|]. split; [exact F0|].
+  apply (rgb_gray_arith luma_wr luma_wg luma_wb luma_div luma_round (max_r a) (max_g a) (max_b a)
+             (get_r a c) (get_g a c) (get_b a c) (convert_channel (max_r a) 255 (get_r a c))
+             (convert_channel (max_g a) 255 (get_g a c)) (convert_channel (max_b a) 255 (get_b a c)) (luma_via a c));
+      try assumption; clear - K Pr Pg Pb Pl; lia.
+Qed.
+
+(* the full clause (error at most half a target step) does NOT hold for this family: machine-checked witness
+   Rgb565 (7, 11, 20) -> Gray8 gives 63, exactly scaled luma 62.04 (error 0.96 step) *)
+Lemma c13_rgb_gray_nearest_refuted :
+  exists a b c, In (FRgbGray, a, b) conv_pairs /\ valid a c /\
+    2 * Z.abs (luma_of b (convert FRgbGray a b c) * luma_den a - max_luma b * luma_num a c) > luma_den a.
+Proof.
+  exists row_Rgb565, row_Gray8, (rgb_new row_Rgb565 7 11 20). split; [|vm_compute; intuition discriminate].
+  unfold conv_pairs. repeat (first [left; reflexivity | right]).
+Qed.
